@@ -51,6 +51,51 @@ function typeofNamespaceProject(rng) {
   return { files, label: "typeof-namespace" };
 }
 
+// failing projects whose unresolved names have several equally near candidates among the names a
+// module exports / declares (a diagnostic that enumerates or ranks candidates must not follow the
+// iteration order of a hash table)
+function nearMissProject(rng) {
+  const stems = rng.pick([
+    ["CreateUserInput", "UpdateUserInput", "DeleteUserInput", "RemoveUserInput", "ReplaceUserInput"],
+    ["ItemA", "ItemB", "ItemC", "ItemD", "ItemE", "ItemF"],
+    ["alpha1", "alpha2", "alpha3", "alphb1", "alpba1"],
+    ["Shape", "Shaqe", "Shade", "Share", "Shame", "Shapes"],
+    ["userId", "userid", "user_id", "usersId", "userIds"],
+  ]);
+  const names = rng.shuffle(stems);
+  const missing = names[0];
+  const present = names.slice(1, 3 + rng.below(names.length - 2));
+  const valueNames = /^[a-z]/.test(missing);
+  const decl = (n, i) => {
+    const k = rng.below(valueNames ? 3 : 5);
+    if (valueNames) return k === 0 ? `export const ${n} = { k: ${i} } as const;` : k === 1 ? `export const ${n} = ${i};` : `export declare const ${n}: { v: ${i} };`;
+    return k === 0 ? `export type ${n} = { k: ${i} };` : k === 1 ? `export interface ${n} { k: ${i} }` : k === 2 ? `export enum ${n} { M = ${i} }` : k === 3 ? `type ${n}_ = ${i};\nexport type { ${n}_ as ${n} };` : `export type ${n}<T = ${i}> = T[];`;
+  };
+  const m = rng.shuffle(present.map(decl)).join("\n") + "\n";
+  const viaStar = rng.chance(0.3);
+  const files = viaStar ? { "inner.ts": m, "m.ts": 'export * from "./inner";\n' } : { "m.ts": m };
+  const use = rng.below(valueNames ? 3 : 5);
+  let entry;
+  if (valueNames) {
+    entry = use === 0 ? `import { ${missing} } from "./m";\nexport const P = parse.buildParsers<{ X: typeof ${missing} }>();\n`
+      : use === 1 ? `import * as ns from "./m";\nexport const P = parse.buildParsers<{ X: typeof ns.${missing} }>();\n`
+      : `export const P = parse.buildParsers<{ X: typeof import("./m").${missing} }>();\n`;
+  } else {
+    entry = use === 0 ? `import { ${missing} } from "./m";\nexport const P = parse.buildParsers<{ X: ${missing} }>();\n`
+      : use === 1 ? `import * as ns from "./m";\nexport const P = parse.buildParsers<{ X: ns.${missing}; Y: ns.${present[0]} }>();\n`
+      : use === 2 ? `export const P = parse.buildParsers<{ X: import("./m").${missing} }>();\n`
+      : use === 3 ? `import type { ${missing} as Local } from "./m";\nexport const P = parse.buildParsers<{ X: Local[] }>();\n`
+      : `${present.map((n, i) => `type ${n} = ${i};`).join("\n")}\nexport const P = parse.buildParsers<{ X: ${missing} }>();\n`;
+  }
+  files["entry.ts"] = entry;
+  // sometimes: a missing key / member among similar ones
+  if (rng.chance(0.3)) {
+    const keys = present.map((n) => n.toLowerCase());
+    files["entry.ts"] = `type O = { ${keys.map((k, i) => `${k}: ${i}`).join("; ")} };\nenum E { ${present.map((n, i) => `${n} = ${i}`).join(", ")} }\nexport const P = parse.buildParsers<{ X: ${rng.pick([`O["${missing.toLowerCase()}"]`, `Pick<O, "${missing.toLowerCase()}">`, `E.${missing}`, `typeof E.${missing}`, `Omit<O, "${missing.toLowerCase()}">`])} }>();\n`;
+  }
+  return { files, label: "near-miss" };
+}
+
 function manyDeclsProgram(rng) {
   // many same-shaped declarations (hoist numbering, named-ref substitution) and two-key discriminated unions
   const g = new TypeGen(rng.fork("t"), { maxDepth: 3 });
@@ -70,8 +115,9 @@ export async function run(ctx) {
       [3, "multifile"],
       [2, "wild"],
       [2, "corpus"],
+      [2, "near-miss"],
     ]);
-    const p = kind === "supported" ? manyDeclsProgram(rng) : kind === "typeof-namespace" ? typeofNamespaceProject(rng) : kind === "multifile" ? multiFileProject(rng) : kind === "wild" ? wildProgram(rng) : mutateCorpus(rng);
+    const p = kind === "supported" ? manyDeclsProgram(rng) : kind === "typeof-namespace" ? typeofNamespaceProject(rng) : kind === "multifile" ? multiFileProject(rng) : kind === "wild" ? wildProgram(rng) : kind === "near-miss" ? nearMissProject(rng) : mutateCorpus(rng);
     const base = { files: p.files, settings: p.settings ?? randomSettings(rng) };
     const names = Object.keys(p.files);
     const orders = [null, names.slice().sort(), names.slice().sort().reverse(), rng.shuffle(names)];
